@@ -15,7 +15,7 @@ SM = "StorageManager."
 PROPS = {
     "C12": {
         "verus": [("directory_publish", ["Directory.publish__tail", "Directory.publish__head", "Azks.get_latest_epoch"]),
-                  ("manager", [SM + "commit_transaction", SM + "write_committed_records", SM + "tic_toc", SM + "increment_metric"])],
+                  ("manager", [SM + "commit_transaction", SM + "write_committed_records", SM + "tic_toc", SM + "increment_metric", "Clone for StorageManager.clone"])],
         "search": True,
         "always_search": True,
         "bounded_search": [{"obligation": "replay/c12#overtaken_on_clone",
@@ -25,7 +25,7 @@ PROPS = {
                  "epoch read at the start of the call - is handed to batch_insert_nodes only after the epoch record was read AGAIN, bypassing the cache, by a call whose transaction had begun, and showed that same epoch "
                  "(permission epoch_confirmed, granted only from such a read); otherwise the transaction is rolled back and the call fails; a refused begin_transaction fails the call before any write; an epoch other "
                  "than the current one is announced only after an accepted commit; StorageManager::commit_transaction ends the transaction - so that another one may begin - only once the database write of its records "
-                 "has returned (accepted or rejected) or it is certain that none is attempted (permission write_attempt_over, granted by the write's return; C12-D13). BOUNDED (never counted as proved): the overtaking interleaving on clones - each call fails without effect or takes effect as a "
+                 "has returned (accepted or rejected) or it is certain that none is attempted (permission write_attempt_over, granted by the write's return; C12-D13); a clone of a storage manager is a second handle on the SAME transaction log, cache and database (identity model: new = fresh, clone = same), so the transaction flag excludes publishes on clones. BOUNDED (never counted as proved): the overtaking interleaving on clones - each call fails without effect or takes effect as a "
                  "whole, successful calls get distinct consecutive epochs, every returned (epoch, hash) pair is what the audit chain verifies against. Not decided: that begin_transaction is an atomic test-and-set "
                  "shared by clones (Arc<AtomicBool> behind &self), any other interleaving, instances that do not share a storage manager.",
         "trusted": ["knowledge tokens (txn_begun, fresh_epoch_read, epoch_confirmed, rolled_back, commit_accepted) are handed out only by the postconditions of the external calls named after them; they cannot express the "
@@ -54,7 +54,7 @@ PROPS = {
         "kani": ["c18"],
         "search": True,
         "scope": "partial (everything except the curve arithmetic): the node labels a publish places in the tree - VRFKeyStorage::get_node_labels, the parallel branch (tasks in a JoinSet whose "
-                 "join_next hands results out in COMPLETION order) - pair every input tuple with the VRF label of that very tuple (trait default method verified as a free function over an arbitrary implementor, R-SELF), and publish keys its tuple -> node label map with exactly those pairs (segment publish__vrf_map); the VRF public-key parser refuses bytes that are not a curve point and points of small order, under which proofs for any input could be forged (Kani, curve operations as harness-controlled switches); every acceptance path of the client verifiers binds the claimed node label through verify_label to the (label, freshness, version) "
+                 "join_next hands results out in COMPLETION order) - pair every input tuple with the VRF label of that very tuple, and return a pair for EVERY tuple of the batch exactly once (task-identity model of the JoinSet: join_next answers None only when no spawned task is left; each task handed out ran to completion with the pair of the tuple it was spawned for) (trait default method verified as a free function over an arbitrary implementor, R-SELF), and publish keys its tuple -> node label map with exactly those pairs (segment publish__vrf_map); the VRF public-key parser refuses bytes that are not a curve point and points of small order, under which proofs for any input could be forged (Kani, curve operations as harness-controlled switches); every acceptance path of the client verifiers binds the claimed node label through verify_label to the (label, freshness, version) "
                  "it is accepted for - verify_existence / _with_val / _with_commitment / verify_nonexistence accept only with label_ok for exactly their arguments, and lookup_verify / "
                  "verify_single_update_proof (tombstoned entries under AllowMissingValues included) accept only through them; verify_label accepts iff key and proof parse, the VRF accepts the proof for the hash input of (label, freshness, version) "
                  "and the claimed node label equals the truncated VRF output with length 256 (Verus, unbounded); the hash input is be64(|label|) || label || [freshness] || be64(version) "
@@ -113,7 +113,7 @@ PROPS = {
                  "node_to_azks_value / node_to_label report (leaf values with their epoch); new_leaf_node stamps a leaf with its birth epoch. The head of publish (segments publish__head / publish__tuples / publish__vrf_map; iterator chains through R-MAPCOLLECT / R-FLATMAP / R-COLLECT, "
                  "the flat_map closure hoisted verbatim): a batch that repeats a label is refused before anything is read or written; the stored versions are asked for exactly the labels of the batch as of "
                  "the epoch of the one epoch record read, next epoch = that epoch + 1; the batch becomes the concatenation of, per (label, value): (Fresh, 1) for an unseen label, NOTHING for a label re-submitted with its current value, "
-                 "(Stale, v), (Fresh, v+1) otherwise; the tuple -> node label map holds for each tuple the VRF label of that very tuple. Not decided: trie insertion; that get_node_labels returns a pair for EVERY tuple (only that each returned pair is right).",
+                 "(Stale, v), (Fresh, v+1) otherwise; the tuple -> node label map holds for each tuple the VRF label of that very tuple. get_node_labels returns a pair for every tuple of the batch (units vrf_labels / vrf_labels_seq: E_complete) and every tuple is a key of the map. Not decided: trie insertion.",
         "trusted": ["R-SEGMENT / R-MAPITER (vx_pop_any removes an ARBITRARY entry: every iteration order); T4 configuration hashes and the VRF as functions",
                     "std iterator chains as loops: iter().map(f).collect() into Vec / HashSet (R-MAPCOLLECT), iter().flat_map(f).collect() (R-FLATMAP), into_iter().collect::<HashMap>() (vx_pairs_into_map); <[T]>::sort is a rearrangement; AkdLabel obeys the HashMap key model; a stored epoch is < u64::MAX and stored versions are < u64::MAX",
                     "the independent canonical-trie computation in replay/exports (written from the statement; shares only the hash primitives and the VRF with the code under test)"],
@@ -175,7 +175,8 @@ PROPS = {
         "assumed": ["stored states satisfy 1 <= version <= epoch of the state (precondition of the segment: get_marker_versions needs start <= end <= epoch)"],
     },
     "C10": {
-        "verus": [("directory_publish", ["Directory.publish__tail", "Directory.publish__after_commit", "Azks.get_latest_epoch"]), ("tree_node", [TN + "get_appropriate_tree_node_from_storage", TN + "determine_node_to_get", "TreeNode.get_from_storage", "TreeNode.get_child_label", "TreeNode.get_child_node", "TreeNode.write_to_storage"])],
+        "verus": [("directory_publish", ["Directory.publish__tail", "Directory.publish__after_commit", "Azks.get_latest_epoch"]), ("tree_node", [TN + "get_appropriate_tree_node_from_storage", TN + "determine_node_to_get", "TreeNode.get_from_storage", "TreeNode.get_child_label", "TreeNode.get_child_node", "TreeNode.write_to_storage"]),
+                  ("manager", ["Clone for StorageManager.clone"])],
         "search": True,
         "always_search": True,
         "bounded_search": [{"obligation": "replay/c10#single_fault_enumeration",
@@ -214,7 +215,7 @@ PROPS = {
         "search": True,
         "always_search": True,
         "bounded_search": [{"obligation": "replay/c14#variants",
-                            "bound": "one 4-epoch history (12 labels; updates; the same 12 again in reverse order; one more label) under {sequential, parallel insertion} x {no cache, cache} x {long-lived instance, "
+                            "bound": "one 4-epoch history (12 labels; updates; the same 12 again in reverse order; one more label) under {sequential, parallel insertion} x {no cache, default cache, 64-byte memory limit cleaned every 2 ms, 2 ms item lifetime} x {long-lived instance, "
                                      "instance re-created over the same storage before every call} x {single-threaded, 4-worker runtime} x both configurations: identical epoch hashes and identical verified lookup results"}],
         "scope": "partial (the pieces of 'results do not depend on parallelism' that are properties of ONE function): the two compile variants of VRFKeyStorage::get_node_labels - tasks in a JoinSet joined in completion order "
                  "(feature parallel_vrf) and the plain loop - satisfy the SAME contract: every input tuple is paired with the VRF label of that tuple; the audit walk returns walk_spec of the stored tree (as multisets) "
@@ -248,8 +249,11 @@ PROPS = {
     },
     "C20": {
         "verus": [("manager", [SM + "tombstone_value_states", SM + "batch_set", SM + "tic_toc", SM + "increment_metric", SM + "is_transaction_active"]),
-                  ("verify_history", ["verify_single_update_proof", "key_history_verify"])],
-        "scope": "partial (frame + verifier opt-in): every record set tombstone_value_states hands to a write path consists only of value-state records that re-key an existing "
+                  ("verify_history", ["verify_single_update_proof", "key_history_verify"]),
+                  ("directory_lookup", ["Directory.create_single_update_proof", "Directory.key_history__tail", "Directory.derive_commitment_key", "lemma_min_max", "Azks.get_latest_epoch"])],
+        "scope": "partial (frame + verifier opt-in + the server's answer does not depend on the stored value): the server assembles a history answer the same way whether or not a state's value was tombstoned - one update proof per "
+                 "selected state (also under MostRecent), each with the commitment nonce of (commitment key, node label, version, STORED value) - an empty stored value gets the nonce of the empty value, which is what a label whose owner published the empty value needs - "
+                 "(create_single_update_proof#E_update, key_history__tail#E_updates); every record set tombstone_value_states hands to a write path consists only of value-state records that re-key an existing "
                  "(label, epoch <= cut-off) state of that user with the same version, node label and username and an EMPTY value - no tree node, epoch record or other label is written; "
                  "on the verifier side the value check is skipped only in AllowMissingValues mode for an empty value and the leaf's membership is still required. "
                  "Histories with further publishes after tombstoning are not decided.",
